@@ -73,6 +73,11 @@ checks = {
    note="The per-method field table (harness/jrpc2/node.go) is transcribed from the Ethereum JSON-RPC spec and is the oracle. One block/tx/log/trace per run. Domain restrictions stated in evidence (log fields need an event; trace idx accompanies a trace field).",
    technique="go/ssa symbolic execution of the real pipeline over enumerated field sets -> SMT (z3); native replay through both cuts",
    design="5/C14"),
+ "C16": dict(
+   text="Bounded symbolic/concrete execution by the SSA engine of the real schema functions (config.ValidateFix, AddRequiredFields, AddUniqueIndex, ValidateColRefs, config.DDL, union, config.Migrate, wpg.Table.DDL/Migrate/Diff, dig.New/setCols) over all ordered pairs of four integration shapes, shared or separate tables, column orders, declaration orders and existing-table prefixes: every written column is in the created/migrated table, identity columns are added, the unique key the database ends up with distinguishes the integration's rows and only contains written columns, missing columns are rejected.",
+   note="The space here is configuration shape, enumerated by the engine's case splits (solver-free for most paths); the deciding step is exhaustive enumeration of the stated finite shape space by symbolic execution of the real code. Two listed known findings (shared-table unique key).",
+   technique="go/ssa execution of the real schema code over an enumerated shape space (engine case splits), SMT only for path feasibility; native replay",
+   design="5/C16"),
  "C17": dict(
    text="Bounded symbolic model checking of the real codec functions (eth.decode, Uint64/Byte/Bytes.UnmarshalJSON, Bytes.Write/MarshalJSON, DecodeHex/EncodeHex, encoding/hex from its own SSA, bint.Encode/Decode/size): every token of each length up to the bound is one symbolic byte array, z3 decides exactness, error and no-panic assertions for all contents; counterexamples are replayed natively with go test before being reported.",
    note="Bounds: token lengths listed in evidence.bounds (quick <=22/16 bytes, thorough <=40/70); lengths are case-split, contents solver-quantified. fmt's %x is modelled; allocator capacity rounding approximated. Nothing is claimed for longer inputs.",
@@ -81,7 +86,7 @@ checks = {
 }
 not_applicable = {
 }
-pending = ["C15","C16","C18","C19","C20"]
+pending = ["C15","C18"]
 m = {
  "version": 1,
  "setup_cmd": "cd /verif/gosym && GOFLAGS=-mod=mod GOPROXY=off GOSUMDB=off GOTOOLCHAIN=local go build -o /verif/bin/gosym .",
@@ -97,6 +102,16 @@ m = {
  "not_applicable": [],
  "notes": "Properties listed under not_applicable with reason 'check not built yet' are work in progress in this session, not judged inapplicable.",
 }
+checks["C19"] = dict(
+   text="Bounded symbolic model checking of the real web.Handler.Authn, Login, isLoopback and web.New (password generation): both switches, loopback oracle, malformed address, form failure as solver Booleans, passwords as symbolic strings; z3 decides served <=> disabled or (loopback and not enforced) or own session, redirect to /login otherwise, session issued only for POST with the exact password. The route table of cmd/shovel main is read structurally from SSA.",
+   note="session/age cryptography, net.ParseIP, http plumbing are cut (engine redirects; identical textual cuts natively). Cookie states and methods case-split. The route check is structural, not a solver query.",
+   technique="go/ssa symbolic execution -> SMT (z3) + structural SSA read of the route table; native replay",
+   design="5/C19")
+checks["C20"] = dict(
+   text="CONFIGURATION HALF: symbolic execution of the real loadTasks, Root.AllIntegrations/AllSources/AllSourcesByName, NewTask and options over file/database mixes (name clashes, enabled flags, 1-2 source references incl. unknown, source placement): exactly one task per enabled integration and source with that source's settings and the reference's range, file wins clashes, unknown source is a startup error, context names equal the task's names (C04's stamp source).",
+   note="The schedule half of C20 (Manager.Run/Restart/runTask: previous generation stopped, one runner per pair) is NOT covered: no scheduler-aware encoding of goroutines/channels/WaitGroup was built. Database readers are cut. Shape space enumerated by case splits; numeric settings solver variables.",
+   technique="go/ssa symbolic execution over enumerated configuration mixes -> SMT (z3); native replay",
+   design="5/C20")
 for pid in sorted(checks):
     c = checks[pid]
     m["checks"].append({
